@@ -145,8 +145,10 @@ pub fn generate(
     let binary_search_fn = if search_tables.is_empty() {
         quote!()
     } else {
+        let binary_search_fn_ident = ctx.binary_search_fn_ident();
         quote!(
-            fn binary_search(c: char, table: &[(char, char)]) -> bool {
+            #[allow(non_snake_case)]
+            fn #binary_search_fn_ident(c: char, table: &[(char, char)]) -> bool {
                 table
                     .binary_search_by(|(start, end)| match c.cmp(start) {
                         std::cmp::Ordering::Greater => {
@@ -173,6 +175,7 @@ pub fn generate(
                 .map(|(start, end)| quote!((#start, #end)))
                 .collect();
             quote!(
+                #[allow(non_upper_case_globals)]
                 static #ident: [(char, char); #n_ranges] = [
                     #(#pairs),*
                 ];
@@ -614,7 +617,9 @@ fn generate_state_char_arms(
         let guard = if ranges.len() > MAX_GUARD_SIZE {
             let binary_search_table_id = ctx.add_search_table(ranges);
 
-            quote!(binary_search(x, &#binary_search_table_id))
+            let binary_search_fn = ctx.binary_search_fn_ident();
+
+            quote!(#binary_search_fn(x, &#binary_search_table_id))
         } else {
             let range_checks: Vec<TokenStream> = ranges
                 .into_iter()
@@ -911,7 +916,9 @@ fn generate_right_ctx_state_char_arms(
         let guard = if ranges.len() > MAX_GUARD_SIZE {
             let binary_search_table_id = ctx.add_search_table(ranges);
 
-            quote!(binary_search(x, &#binary_search_table_id))
+            let binary_search_fn = ctx.binary_search_fn_ident();
+
+            quote!(#binary_search_fn(x, &#binary_search_table_id))
         } else {
             let range_checks: Vec<TokenStream> = ranges
                 .into_iter()
@@ -933,7 +940,9 @@ fn generate_right_ctx_state_char_arms(
             accept_ranges.sort();
             let binary_search_table_id = ctx.add_search_table(accept_ranges);
 
-            quote!(binary_search(x, &#binary_search_table_id))
+            let binary_search_fn = ctx.binary_search_fn_ident();
+
+            quote!(#binary_search_fn(x, &#binary_search_table_id))
         } else {
             let range_checks: Vec<TokenStream> = accept_ranges
                 .into_iter()
